@@ -336,228 +336,180 @@ pub trait GarnishData: Sized {
     type NumberIterator;
 
     // ---- ghost views ----
-    spec fn inv(&self) -> bool;
     spec fn st(&self) -> St<Self::Size, Self::Number, Self::Symbol, Self::Char, Self::Byte>;
 
     // ---- data table: readers ----
     fn get_data_len(&self) -> (r: Self::Size)
-        requires self.inv(),
         ensures Self::sv(r) == self.st().data_len;
 
     fn get_data_type(&self, addr: Self::Size) -> (r: Result<GarnishDataType, Self::Error>)
-        requires self.inv(),
         ensures r matches Ok(v) ==> self.st().cells.contains_key(addr) && v == self.st().cells[addr].ty;
 
     fn get_number(&self, addr: Self::Size) -> (r: Result<Self::Number, Self::Error>)
-        requires self.inv(),
         ensures r matches Ok(v) ==> self.st().cells.contains_key(addr) && self.st().cells[addr].ty == GarnishDataType::Number && v == self.st().cells[addr].num;
 
     fn get_type(&self, addr: Self::Size) -> (r: Result<GarnishDataType, Self::Error>)
-        requires self.inv(),
         ensures r matches Ok(v) ==> self.st().cells.contains_key(addr) && self.st().cells[addr].ty == GarnishDataType::Type && v == self.st().cells[addr].typ;
 
     fn get_char(&self, addr: Self::Size) -> (r: Result<Self::Char, Self::Error>)
-        requires self.inv(),
         ensures r matches Ok(v) ==> self.st().cells.contains_key(addr) && self.st().cells[addr].ty == GarnishDataType::Char && v == self.st().cells[addr].chr;
 
     fn get_byte(&self, addr: Self::Size) -> (r: Result<Self::Byte, Self::Error>)
-        requires self.inv(),
         ensures r matches Ok(v) ==> self.st().cells.contains_key(addr) && self.st().cells[addr].ty == GarnishDataType::Byte && v == self.st().cells[addr].byt;
 
     fn get_symbol(&self, addr: Self::Size) -> (r: Result<Self::Symbol, Self::Error>)
-        requires self.inv(),
         ensures r matches Ok(v) ==> self.st().cells.contains_key(addr) && self.st().cells[addr].ty == GarnishDataType::Symbol && v == self.st().cells[addr].sym;
 
     fn get_expression(&self, addr: Self::Size) -> (r: Result<Self::Size, Self::Error>)
-        requires self.inv(),
         ensures r matches Ok(v) ==> self.st().cells.contains_key(addr) && self.st().cells[addr].ty == GarnishDataType::Expression && v == self.st().cells[addr].a;
 
     fn get_external(&self, addr: Self::Size) -> (r: Result<Self::Size, Self::Error>)
-        requires self.inv(),
         ensures r matches Ok(v) ==> self.st().cells.contains_key(addr) && self.st().cells[addr].ty == GarnishDataType::External && v == self.st().cells[addr].a;
 
     fn get_pair(&self, addr: Self::Size) -> (r: Result<(Self::Size, Self::Size), Self::Error>)
-        requires self.inv(),
         ensures r matches Ok(v) ==> self.st().cells.contains_key(addr) && self.st().cells[addr].ty == GarnishDataType::Pair && v == (self.st().cells[addr].a, self.st().cells[addr].b);
 
     fn get_concatenation(&self, addr: Self::Size) -> (r: Result<(Self::Size, Self::Size), Self::Error>)
-        requires self.inv(),
         ensures r matches Ok(v) ==> self.st().cells.contains_key(addr) && self.st().cells[addr].ty == GarnishDataType::Concatenation && v == (self.st().cells[addr].a, self.st().cells[addr].b);
 
     fn get_range(&self, addr: Self::Size) -> (r: Result<(Self::Size, Self::Size), Self::Error>)
-        requires self.inv(),
         ensures r matches Ok(v) ==> self.st().cells.contains_key(addr) && self.st().cells[addr].ty == GarnishDataType::Range && v == (self.st().cells[addr].a, self.st().cells[addr].b);
 
     fn get_slice(&self, addr: Self::Size) -> (r: Result<(Self::Size, Self::Size), Self::Error>)
-        requires self.inv(),
         ensures r matches Ok(v) ==> self.st().cells.contains_key(addr) && self.st().cells[addr].ty == GarnishDataType::Slice && v == (self.st().cells[addr].a, self.st().cells[addr].b);
 
     fn get_partial(&self, addr: Self::Size) -> (r: Result<(Self::Size, Self::Size), Self::Error>)
-        requires self.inv(),
         ensures r matches Ok(v) ==> self.st().cells.contains_key(addr) && self.st().cells[addr].ty == GarnishDataType::Partial && v == (self.st().cells[addr].a, self.st().cells[addr].b);
 
     // ---- lists (C16 at trait level) ----
     fn get_list_len(&self, addr: Self::Size) -> (r: Result<Self::Size, Self::Error>)
-        requires self.inv(),
         ensures r matches Ok(v) ==> self.st().cells.contains_key(addr) && self.st().cells[addr].ty == GarnishDataType::List && Self::sv(v) == self.st().cells[addr].items.len();
 
     fn get_list_item(&self, list_addr: Self::Size, item_addr: Self::Number) -> (r: Result<Option<Self::Size>, Self::Error>)
-        requires self.inv(),
         ensures
             r is Ok ==> self.st().cells.contains_key(list_addr) && self.st().cells[list_addr].ty == GarnishDataType::List,
             r matches Ok(Some(v)) ==> 0 <= Self::nidx(item_addr) < self.st().cells[list_addr].items.len() && v == self.st().cells[list_addr].items[Self::nidx(item_addr)],
             r matches Ok(None) ==> !(0 <= Self::nidx(item_addr) < self.st().cells[list_addr].items.len());
 
     fn get_list_item_with_symbol(&self, list_addr: Self::Size, sym: Self::Symbol) -> (r: Result<Option<Self::Size>, Self::Error>)
-        requires self.inv(),
         ensures
             r is Ok ==> self.st().cells.contains_key(list_addr) && self.st().cells[list_addr].ty == GarnishDataType::List,
             r matches Ok(Some(v)) ==> exists|i: int| 0 <= i < self.st().cells[list_addr].items.len() && #[trigger] assoc_value(self.st().cells, self.st().cells[list_addr].items[i], sym) == Some(v),
             r matches Ok(None) ==> forall|i: int| 0 <= i < self.st().cells[list_addr].items.len() ==> (#[trigger] assoc_value(self.st().cells, self.st().cells[list_addr].items[i], sym)) is None;
 
     fn get_char_list_len(&self, addr: Self::Size) -> (r: Result<Self::Size, Self::Error>)
-        requires self.inv(),
         ensures r matches Ok(v) ==> self.st().cells.contains_key(addr) && self.st().cells[addr].ty == GarnishDataType::CharList && Self::sv(v) == self.st().cells[addr].chars.len();
 
     fn get_char_list_item(&self, addr: Self::Size, item_index: Self::Number) -> (r: Result<Option<Self::Char>, Self::Error>)
-        requires self.inv(),
         ensures
             r is Ok ==> self.st().cells.contains_key(addr) && self.st().cells[addr].ty == GarnishDataType::CharList,
             r matches Ok(Some(v)) ==> 0 <= Self::nidx(item_index) < self.st().cells[addr].chars.len() && v == self.st().cells[addr].chars[Self::nidx(item_index)],
             r matches Ok(None) ==> !(0 <= Self::nidx(item_index) < self.st().cells[addr].chars.len());
 
     fn get_byte_list_len(&self, addr: Self::Size) -> (r: Result<Self::Size, Self::Error>)
-        requires self.inv(),
         ensures r matches Ok(v) ==> self.st().cells.contains_key(addr) && self.st().cells[addr].ty == GarnishDataType::ByteList && Self::sv(v) == self.st().cells[addr].bytes.len();
 
     fn get_byte_list_item(&self, addr: Self::Size, item_index: Self::Number) -> (r: Result<Option<Self::Byte>, Self::Error>)
-        requires self.inv(),
         ensures
             r is Ok ==> self.st().cells.contains_key(addr) && self.st().cells[addr].ty == GarnishDataType::ByteList,
             r matches Ok(Some(v)) ==> 0 <= Self::nidx(item_index) < self.st().cells[addr].bytes.len() && v == self.st().cells[addr].bytes[Self::nidx(item_index)],
             r matches Ok(None) ==> !(0 <= Self::nidx(item_index) < self.st().cells[addr].bytes.len());
 
     fn get_symbol_list_len(&self, addr: Self::Size) -> (r: Result<Self::Size, Self::Error>)
-        requires self.inv(),
         ensures r matches Ok(v) ==> self.st().cells.contains_key(addr) && self.st().cells[addr].ty == GarnishDataType::SymbolList && Self::sv(v) == self.st().cells[addr].parts.len();
 
     fn get_symbol_list_item(&self, addr: Self::Size, item_index: Self::Number) -> (r: Result<Option<SymbolListPart<Self::Symbol, Self::Number>>, Self::Error>)
-        requires self.inv(),
         ensures
             r is Ok ==> self.st().cells.contains_key(addr) && self.st().cells[addr].ty == GarnishDataType::SymbolList,
             r matches Ok(Some(v)) ==> 0 <= Self::nidx(item_index) < self.st().cells[addr].parts.len() && v == self.st().cells[addr].parts[Self::nidx(item_index)],
             r matches Ok(None) ==> !(0 <= Self::nidx(item_index) < self.st().cells[addr].parts.len());
 
-    fn get_char_list_iter(&self, list_addr: Self::Size, extents: Extents<Self::Number>) -> (r: Result<Self::CharIterator, Self::Error>)
-        requires self.inv();
-    fn get_byte_list_iter(&self, list_addr: Self::Size, extents: Extents<Self::Number>) -> (r: Result<Self::ByteIterator, Self::Error>)
-        requires self.inv();
-    fn get_symbol_list_iter(&self, list_addr: Self::Size, extents: Extents<Self::Number>) -> (r: Result<Self::SymbolListPartIterator, Self::Error>)
-        requires self.inv();
-    fn get_list_item_iter(&self, list_addr: Self::Size, extents: Extents<Self::Number>) -> (r: Result<Self::ListItemIterator, Self::Error>)
-        requires self.inv();
-    fn get_concatenation_iter(&self, addr: Self::Size, extents: Extents<Self::Number>) -> (r: Result<Self::ConcatenationItemIterator, Self::Error>)
-        requires self.inv();
+    fn get_char_list_iter(&self, list_addr: Self::Size, extents: Extents<Self::Number>) -> (r: Result<Self::CharIterator, Self::Error>);
+    fn get_byte_list_iter(&self, list_addr: Self::Size, extents: Extents<Self::Number>) -> (r: Result<Self::ByteIterator, Self::Error>);
+    fn get_symbol_list_iter(&self, list_addr: Self::Size, extents: Extents<Self::Number>) -> (r: Result<Self::SymbolListPartIterator, Self::Error>);
+    fn get_list_item_iter(&self, list_addr: Self::Size, extents: Extents<Self::Number>) -> (r: Result<Self::ListItemIterator, Self::Error>);
+    fn get_concatenation_iter(&self, addr: Self::Size, extents: Extents<Self::Number>) -> (r: Result<Self::ConcatenationItemIterator, Self::Error>);
 
     // ---- data table: adders. Frame: existing cells keep their content; nothing else changes ----
     fn add_unit(&mut self) -> (r: Result<Self::Size, Self::Error>)
-        requires old(self).inv(),
-        ensures final(self).inv(),
+        ensures
             r matches Ok(a) ==> only_cells(old(self).st(), final(self).st()) && final(self).st().cells.contains_key(a) && final(self).st().cells[a].ty == GarnishDataType::Unit;
 
     fn add_true(&mut self) -> (r: Result<Self::Size, Self::Error>)
-        requires old(self).inv(),
-        ensures final(self).inv(),
+        ensures
             r matches Ok(a) ==> only_cells(old(self).st(), final(self).st()) && final(self).st().cells.contains_key(a) && final(self).st().cells[a].ty == GarnishDataType::True;
 
     fn add_false(&mut self) -> (r: Result<Self::Size, Self::Error>)
-        requires old(self).inv(),
-        ensures final(self).inv(),
+        ensures
             r matches Ok(a) ==> only_cells(old(self).st(), final(self).st()) && final(self).st().cells.contains_key(a) && final(self).st().cells[a].ty == GarnishDataType::False;
 
     fn add_number(&mut self, value: Self::Number) -> (r: Result<Self::Size, Self::Error>)
-        requires old(self).inv(),
-        ensures final(self).inv(),
+        ensures
             r matches Ok(a) ==> only_cells(old(self).st(), final(self).st()) && final(self).st().cells.contains_key(a) && final(self).st().cells[a].ty == GarnishDataType::Number && final(self).st().cells[a].num == value;
 
     fn add_type(&mut self, value: GarnishDataType) -> (r: Result<Self::Size, Self::Error>)
-        requires old(self).inv(),
-        ensures final(self).inv(),
+        ensures
             r matches Ok(a) ==> only_cells(old(self).st(), final(self).st()) && final(self).st().cells.contains_key(a) && final(self).st().cells[a].ty == GarnishDataType::Type && final(self).st().cells[a].typ == value;
 
     fn add_char(&mut self, value: Self::Char) -> (r: Result<Self::Size, Self::Error>)
-        requires old(self).inv(),
-        ensures final(self).inv(),
+        ensures
             r matches Ok(a) ==> only_cells(old(self).st(), final(self).st()) && final(self).st().cells.contains_key(a) && final(self).st().cells[a].ty == GarnishDataType::Char && final(self).st().cells[a].chr == value;
 
     fn add_byte(&mut self, value: Self::Byte) -> (r: Result<Self::Size, Self::Error>)
-        requires old(self).inv(),
-        ensures final(self).inv(),
+        ensures
             r matches Ok(a) ==> only_cells(old(self).st(), final(self).st()) && final(self).st().cells.contains_key(a) && final(self).st().cells[a].ty == GarnishDataType::Byte && final(self).st().cells[a].byt == value;
 
     fn add_symbol(&mut self, value: Self::Symbol) -> (r: Result<Self::Size, Self::Error>)
-        requires old(self).inv(),
-        ensures final(self).inv(),
+        ensures
             r matches Ok(a) ==> only_cells(old(self).st(), final(self).st()) && final(self).st().cells.contains_key(a) && final(self).st().cells[a].ty == GarnishDataType::Symbol && final(self).st().cells[a].sym == value;
 
     fn add_expression(&mut self, value: Self::Size) -> (r: Result<Self::Size, Self::Error>)
-        requires old(self).inv(),
-        ensures final(self).inv(),
+        ensures
             r matches Ok(a) ==> only_cells(old(self).st(), final(self).st()) && final(self).st().cells.contains_key(a) && final(self).st().cells[a].ty == GarnishDataType::Expression && final(self).st().cells[a].a == value;
 
     fn add_external(&mut self, value: Self::Size) -> (r: Result<Self::Size, Self::Error>)
-        requires old(self).inv(),
-        ensures final(self).inv(),
+        ensures
             r matches Ok(a) ==> only_cells(old(self).st(), final(self).st()) && final(self).st().cells.contains_key(a) && final(self).st().cells[a].ty == GarnishDataType::External && final(self).st().cells[a].a == value;
 
     fn add_pair(&mut self, value: (Self::Size, Self::Size)) -> (r: Result<Self::Size, Self::Error>)
-        requires old(self).inv(),
-        ensures final(self).inv(),
+        ensures
             r matches Ok(a) ==> only_cells(old(self).st(), final(self).st()) && final(self).st().cells.contains_key(a) && final(self).st().cells[a].ty == GarnishDataType::Pair && final(self).st().cells[a].a == value.0 && final(self).st().cells[a].b == value.1;
 
     fn add_concatenation(&mut self, left: Self::Size, right: Self::Size) -> (r: Result<Self::Size, Self::Error>)
-        requires old(self).inv(),
-        ensures final(self).inv(),
+        ensures
             r matches Ok(a) ==> only_cells(old(self).st(), final(self).st()) && final(self).st().cells.contains_key(a) && final(self).st().cells[a].ty == GarnishDataType::Concatenation && final(self).st().cells[a].a == left && final(self).st().cells[a].b == right;
 
     fn add_range(&mut self, start: Self::Size, end: Self::Size) -> (r: Result<Self::Size, Self::Error>)
-        requires old(self).inv(),
-        ensures final(self).inv(),
+        ensures
             r matches Ok(a) ==> only_cells(old(self).st(), final(self).st()) && final(self).st().cells.contains_key(a) && final(self).st().cells[a].ty == GarnishDataType::Range && final(self).st().cells[a].a == start && final(self).st().cells[a].b == end;
 
     fn add_slice(&mut self, list: Self::Size, range: Self::Size) -> (r: Result<Self::Size, Self::Error>)
-        requires old(self).inv(),
-        ensures final(self).inv(),
+        ensures
             r matches Ok(a) ==> only_cells(old(self).st(), final(self).st()) && final(self).st().cells.contains_key(a) && final(self).st().cells[a].ty == GarnishDataType::Slice && final(self).st().cells[a].a == list && final(self).st().cells[a].b == range;
 
     fn add_partial(&mut self, reciever: Self::Size, input: Self::Size) -> (r: Result<Self::Size, Self::Error>)
-        requires old(self).inv(),
-        ensures final(self).inv(),
+        ensures
             r matches Ok(a) ==> only_cells(old(self).st(), final(self).st()) && final(self).st().cells.contains_key(a) && final(self).st().cells[a].ty == GarnishDataType::Partial && final(self).st().cells[a].a == reciever && final(self).st().cells[a].b == input;
 
     fn merge_to_symbol_list(&mut self, first: Self::Size, second: Self::Size) -> (r: Result<Self::Size, Self::Error>)
-        requires old(self).inv(),
-        ensures final(self).inv(),
+        ensures
             r matches Ok(a) ==> only_cells(old(self).st(), final(self).st()) && final(self).st().cells.contains_key(a) && final(self).st().cells[a].ty == GarnishDataType::SymbolList;
 
     // ---- list builder ----
     fn start_list(&mut self, len: Self::Size) -> (r: Result<Self::Size, Self::Error>)
-        requires old(self).inv(),
-        ensures final(self).inv(),
+        ensures
             r matches Ok(l) ==> grows(old(self).st(), final(self).st()) && !old(self).st().building.contains_key(l)
                 && final(self).st() == (St { cells: final(self).st().cells, data_len: final(self).st().data_len,
                         building: old(self).st().building.insert(l, Building { cap: Self::sv(len), items: Seq::empty() }), ..old(self).st() });
 
     fn add_to_list(&mut self, list_index: Self::Size, item_index: Self::Size) -> (r: Result<Self::Size, Self::Error>)
-        requires old(self).inv(),
-        ensures final(self).inv(),
+        ensures
             r matches Ok(l) ==> grows(old(self).st(), final(self).st()) && old(self).st().building.contains_key(list_index)
                 && final(self).st() == (St { cells: final(self).st().cells, data_len: final(self).st().data_len,
                         building: old(self).st().building.remove(list_index).insert(l, Building { cap: old(self).st().building[list_index].cap, items: old(self).st().building[list_index].items.push(item_index) }), ..old(self).st() });
 
     fn end_list(&mut self, list_index: Self::Size) -> (r: Result<Self::Size, Self::Error>)
-        requires old(self).inv(),
-        ensures final(self).inv(),
+        ensures
             r matches Ok(a) ==> grows(old(self).st(), final(self).st()) && old(self).st().building.contains_key(list_index)
                 && final(self).st() == (St { cells: final(self).st().cells, data_len: final(self).st().data_len,
                         building: old(self).st().building.remove(list_index), ..old(self).st() })
@@ -566,65 +518,55 @@ pub trait GarnishData: Sized {
 
     // ---- operand ("register") stack ----
     fn get_register_len(&self) -> (r: Self::Size)
-        requires self.inv(),
         ensures Self::sv(r) == self.st().regs.len();
 
     fn push_register(&mut self, addr: Self::Size) -> (r: Result<(), Self::Error>)
-        requires old(self).inv(),
-        ensures final(self).inv(),
+        ensures
             r is Ok ==> only_cells_regs(old(self).st(), final(self).st(), old(self).st().regs.push(addr));
 
     fn get_register(&self, addr: Self::Size) -> (r: Option<Self::Size>)
-        requires self.inv(),
         ensures
             r matches Some(v) ==> Self::sv(addr) < self.st().regs.len() && v == self.st().regs[Self::sv(addr) as int],
             r is None ==> Self::sv(addr) >= self.st().regs.len();
 
     fn pop_register(&mut self) -> (r: Result<Option<Self::Size>, Self::Error>)
-        requires old(self).inv(),
-        ensures final(self).inv(),
+        ensures
             r matches Ok(Some(v)) ==> old(self).st().regs.len() > 0 && v == old(self).st().regs.last() && final(self).st() == (St { regs: old(self).st().regs.drop_last(), ..old(self).st() }),
             r matches Ok(None) ==> old(self).st().regs.len() == 0 && final(self).st() == old(self).st();
 
     // ---- input-value stack ----
     fn push_value_stack(&mut self, addr: Self::Size) -> (r: Result<(), Self::Error>)
-        requires old(self).inv(),
-        ensures final(self).inv(),
+        ensures
             r is Ok ==> grows(old(self).st(), final(self).st())
                 && final(self).st() == (St { cells: final(self).st().cells, data_len: final(self).st().data_len, values: old(self).st().values.push(addr), ..old(self).st() });
 
     fn pop_value_stack(&mut self) -> (r: Option<Self::Size>)
-        requires old(self).inv(),
-        ensures final(self).inv(),
+        ensures
             r matches Some(v) ==> old(self).st().values.len() > 0 && v == old(self).st().values.last()
                 && final(self).st() == (St { values: old(self).st().values.drop_last(), ..old(self).st() }),
             r is None ==> old(self).st().values.len() == 0 && final(self).st() == old(self).st();
 
     fn get_current_value(&self) -> (r: Option<Self::Size>)
-        requires self.inv(),
         ensures
             r matches Some(v) ==> self.st().values.len() > 0 && v == self.st().values.last(),
             r is None ==> self.st().values.len() == 0;
 
     fn get_current_value_mut(&mut self) -> (r: Option<&mut Self::Size>)
-        requires old(self).inv(),
-        ensures final(self).inv(),
+        ensures
             r matches Some(p) ==> old(self).st().values.len() > 0 && *p == old(self).st().values.last()
                 && final(self).st() == (St { values: old(self).st().values.drop_last().push(*final(p)), ..old(self).st() }),
             r is None ==> old(self).st().values.len() == 0 && final(self).st() == old(self).st();
 
     // ---- frames ----
     fn push_frame(&mut self, index: Self::Size) -> (r: Result<(), Self::Error>)
-        requires old(self).inv(),
-        ensures final(self).inv(),
+        ensures
             r is Ok ==> grows(old(self).st(), final(self).st())
                 && old(self).st().regs.is_prefix_of(final(self).st().regs)
                 && final(self).st() == (St { cells: final(self).st().cells, data_len: final(self).st().data_len, regs: final(self).st().regs,
                         frames: old(self).st().frames.push(Frame { ret: index, saved_regs: old(self).st().regs }), ..old(self).st() });
 
     fn pop_frame(&mut self) -> (r: Result<Option<Self::Size>, Self::Error>)
-        requires old(self).inv(),
-        ensures final(self).inv(),
+        ensures
             r matches Ok(Some(v)) ==> old(self).st().frames.len() > 0 && v == old(self).st().frames.last().ret
                 && final(self).st() == (St { regs: old(self).st().frames.last().saved_regs, frames: old(self).st().frames.drop_last(), ..old(self).st() }),
             r matches Ok(None) ==> old(self).st().frames.len() == 0
@@ -633,64 +575,52 @@ pub trait GarnishData: Sized {
 
     // ---- program tables ----
     fn get_instruction_len(&self) -> (r: Self::Size)
-        requires self.inv(),
         ensures Self::sv(r) == self.st().instrs.len();
 
     fn get_instruction(&self, addr: Self::Size) -> (r: Option<(Instruction, Option<Self::Size>)>)
-        requires self.inv(),
         ensures
             r matches Some(v) ==> Self::sv(addr) < self.st().instrs.len() && v == self.st().instrs[Self::sv(addr) as int],
             r is None ==> Self::sv(addr) >= self.st().instrs.len();
 
     fn get_instruction_cursor(&self) -> (r: Self::Size)
-        requires self.inv(),
         ensures r == self.st().cursor;
 
     fn set_instruction_cursor(&mut self, addr: Self::Size) -> (r: Result<(), Self::Error>)
-        requires old(self).inv(),
-        ensures final(self).inv(),
+        ensures
             r is Ok ==> final(self).st() == (St { cursor: addr, ..old(self).st() });
 
     fn get_from_jump_table(&self, index: Self::Size) -> (r: Option<Self::Size>)
-        requires self.inv(),
         ensures
             r matches Some(v) ==> Self::sv(index) < self.st().jumps.len() && v == self.st().jumps[Self::sv(index) as int],
             r is None ==> Self::sv(index) >= self.st().jumps.len();
 
     // ---- conversions done by the data object ----
     fn add_char_list_from(&mut self, from: Self::Size) -> (r: Result<Self::Size, Self::Error>)
-        requires old(self).inv(),
-        ensures final(self).inv(),
+        ensures
             r matches Ok(a) ==> only_cells(old(self).st(), final(self).st()) && final(self).st().cells.contains_key(a);
     fn add_byte_list_from(&mut self, from: Self::Size) -> (r: Result<Self::Size, Self::Error>)
-        requires old(self).inv(),
-        ensures final(self).inv(),
+        ensures
             r matches Ok(a) ==> only_cells(old(self).st(), final(self).st()) && final(self).st().cells.contains_key(a);
     fn add_symbol_from(&mut self, from: Self::Size) -> (r: Result<Self::Size, Self::Error>)
-        requires old(self).inv(),
-        ensures final(self).inv(),
+        ensures
             r matches Ok(a) ==> only_cells(old(self).st(), final(self).st()) && final(self).st().cells.contains_key(a);
     fn add_number_from(&mut self, from: Self::Size) -> (r: Result<Self::Size, Self::Error>)
-        requires old(self).inv(),
-        ensures final(self).inv(),
+        ensures
             r matches Ok(a) ==> only_cells(old(self).st(), final(self).st()) && final(self).st().cells.contains_key(a);
 
     // ---- host extension points (assumption A-HOST: the documented protocol) ----
     // An accepting host leaves exactly one result on the operand stack; a declining host leaves the
     // operand stack as it was. Either way the call is logged, cells only grow, nothing else changes.
     fn resolve(&mut self, symbol: Self::Symbol) -> (r: Result<bool, Self::Error>)
-        requires old(self).inv(),
-        ensures final(self).inv(),
+        ensures
             r matches Ok(b) ==> host_effect(old(self).st(), final(self).st(), HostCall::Resolve(symbol), b);
 
     fn apply(&mut self, external_value: Self::Size, input_addr: Self::Size) -> (r: Result<bool, Self::Error>)
-        requires old(self).inv(),
-        ensures final(self).inv(),
+        ensures
             r matches Ok(b) ==> host_effect(old(self).st(), final(self).st(), HostCall::Apply(external_value, input_addr), b);
 
     fn defer_op(&mut self, operation: Instruction, left: (GarnishDataType, Self::Size), right: (GarnishDataType, Self::Size)) -> (r: Result<bool, Self::Error>)
-        requires old(self).inv(),
-        ensures final(self).inv(),
+        ensures
             r matches Ok(b) ==> host_effect(old(self).st(), final(self).st(), HostCall::Defer(operation, left, right), b);
 
     /// Size as a natural number
@@ -763,5 +693,20 @@ pub trait GarnishData: Sized {
             forall|s: Self::Size| #![auto] Self::nidx(<Self::DataFactory as GarnishDataFactory<Self::Size, Self::Number, Self::Char, Self::Byte, Self::Symbol, Self::Error, Self::SizeIterator, Self::NumberIterator>>::size_to_number_spec(s)) == Self::sv(s),
     ;
 }
+
+
+// ---------------------------------------------------------------------------------
+// Assumed stand-ins for code outside Verus' subset (each one is named in the evidence)
+// ---------------------------------------------------------------------------------
+
+/// Stands for the Slice-of-Concatenation arm of list.rs::access_with_symbol, whose closure captures
+/// `found` mutably (rule R8-cut). Assumed: leaves everything but the data table alone.
+#[verifier::external_body]
+pub fn verif_slice_concat_lookup<Data: GarnishData>(this: &mut Data, value: Data::Size, start: Data::Number, end: Data::Number, sym: Data::Symbol)
+    -> (r: Result<Option<Data::Size>, RuntimeError<Data::Error>>)
+    ensures
+        r is Ok ==> only_cells(old(this).st(), final(this).st()),
+        r matches Err(e) ==> e.code() == ErrorType::Unknown,
+{ unimplemented!() }
 
 } // verus!
